@@ -332,7 +332,7 @@ fn convert_arg_to_comparable_value_and_suffix(
     option_name: &str,
     value_as_string: &str,
 ) -> Result<(ComparableValue, String), Box<dyn Error>> {
-    let re = Regex::new(r"([+-]?)(\d+)(.*)$")?;
+    let re = Regex::new(r"^([+-]?)(\d+)(.*)$")?;
     if let Some(groups) = re.captures(value_as_string) {
         if let Ok(val) = groups[2].parse::<u64>() {
             return Ok((
@@ -411,7 +411,7 @@ fn parse_str_to_newer_args(input: &str) -> Option<(String, String)> {
         return Some(("c".to_string(), "m".to_string()));
     }
 
-    let re = Regex::new(r"-newer([aBcm])([aBcmt])").unwrap();
+    let re = Regex::new(r"-newer([aBcm])([aBcmt])$").unwrap();
     if let Some(captures) = re.captures(input) {
         let x = captures.get(1)?.as_str().to_string();
         let y = captures.get(2)?.as_str().to_string();
